@@ -224,6 +224,7 @@ class String(Parseable[bytes], metaclass=ABCMeta):
         else:
             raise TypeError(value)
         if not binary and len(ascii_) < 64 \
+                and b'\r' not in ascii_ \
                 and b'\n' not in ascii_ \
                 and b'\x00' not in ascii_:
             return QuotedString(ascii_)
